@@ -11,7 +11,7 @@ TRUSTED_EXTRA = ['modelled by hand: MinifyNameFactory._name_for_id/get_short_nam
 
 
 def gen_history(rng, n, reserved):
-    pop = [b'a', b'b', b'c', b'ba', b'aa', b'ab', b'z', b'zz', b'foo', b'bar', b'x1', b'player_x', b'\x80x', b'T', b'_v']
+    pop = [b'a', b'b', b'c', b'ba', b'aa', b'ab', b'z', b'zz', b'foo', b'bar', b'x1', b'player_x', b'\x80x', b'T', b'_v', b'hp\x87', b'\x8b', b'x\xff_1']
     pop += [b'v%d' % i for i in range(rng.choice([0, 5, 40, 800, 3000]))]
     pop += rng.sample(sorted(reserved), 8)
     return [rng.choice(pop) for _ in range(n)]
@@ -61,7 +61,7 @@ def run(ctx, res):
         if cfg == 'keepall':
             args['keep_all_names'] = True
         elif cfg == 'keepfile':
-            keep = rng.sample([b'a', b'b', b'c', b'd', b'aa', b'ba', b'foo', b'v3', b'zz', b'end'], rng.randrange(0, 6))
+            keep = rng.sample([b'a', b'b', b'c', b'd', b'aa', b'ba', b'foo', b'v3', b'zz', b'end', b'hp\x87', b'\x8b', b'\x80x', b'x\xff_1'], rng.randrange(0, 8))
             kp = M.write_keep_file(ctx, keep, 'k%d.txt' % (h % 20), style=h % 2)
             args['keep_names_from_file'] = kp
             keeptxt = hx(open(kp, 'rb').read())
@@ -108,6 +108,47 @@ def run(ctx, res):
         strip = lambda t: t._data[2:-2] if type(t).__name__ == 'TokLabel' else t._data  # noqa: E731
         check_relation(res, 'C02:program:%s:%s' % (cfg, hx(src)[:50]), {'source': hx(src), 'cfg': cfg, 'keep': [hx(k) for k in keep]},
                        [strip(t) for t in ti], [strip(t) for t in to], reserved, set(keep), False)
+    # command line wiring of the keep options: `p8tool luamin [--keep-all-names | --keep-names-from-file F] cart` = the library minifier
+    # with the same configuration (on .p8 and .p8.png carts)
+    import contextlib
+    import io
+    import implutil as U
+    from pico8 import tool
+    from pico8.game import file as gfile
+    for i in range(ctx.budget(9, 90)):
+        src = gen_lua.gen_program(rng)[0]
+        cfg = ['default', 'keepall', 'keepfile'][i % 3]
+        keep = rng.sample([b'a', b'b', b'c', b'ba', b'foo', b'x', b'player_x', b'tbl'], 4) if cfg == 'keepfile' else []
+        kp = M.write_keep_file(ctx, keep, 'cli%d.txt' % i, style=i % 2) if keep else None
+        ext = ['.p8', '.p8.png'][(i // 3) % 2]
+        try:
+            g = U.make_game(rng=rng, code=src, version=8)
+        except Exception:
+            continue
+        cart = os.path.join(ctx.tmp, 'c02cli%d%s' % (i, ext))
+        gfile.to_file(g, cart)
+        stored = b''.join(gfile.from_file(cart).lua.to_lines())
+        argv = ['-q', 'luamin'] + (['--keep-all-names'] if cfg == 'keepall' else []) + (['--keep-names-from-file', kp] if kp else []) + [cart]
+        with U.quiet(), contextlib.redirect_stdout(io.StringIO()), contextlib.redirect_stderr(io.StringIO()):
+            try:
+                rc = tool.main(argv)
+            except Exception as e:
+                rc = 'raised %r' % (e,)
+        res.evaluations += 1
+        res.count('cli:' + cfg + ext)
+        res.nontrivial.add(('cli', cfg, ext, i))
+        outp = cart[:-len(ext)] + '_fmt' + ext
+        key = 'C02:cli:%s:%s' % (cfg, hx(src)[:50])
+        inp = {'source': hx(src), 'cfg': cfg, 'keep': [hx(k) for k in keep], 'cart': ext}
+        if rc != 0 or not os.path.exists(outp):
+            res.fail(key, 'p8tool luamin (%s) failed on a valid cart: %s' % (cfg, rc), inp)
+            continue
+        got = b''.join(gfile.from_file(outp).lua.to_lines())
+        want = M.minify([stored], cfg, kp)
+        if got.rstrip(b'\n') != want.rstrip(b'\n'):
+            res.fail(key, 'p8tool luamin with %s does not write what the minifier produces with that configuration (option wiring)' % (
+                {'default': 'no option', 'keepall': '--keep-all-names', 'keepfile': '--keep-names-from-file'}[cfg]), inp,
+                observed=hx(got)[:200], expected=hx(want)[:200])
     if ctx.model.available:
         mo = ctx.model.run(lines)
         for c, e, g in zip(cases, expect, mo):
